@@ -2,7 +2,8 @@
 (* Bounded case sets for Termini: single chains (amino runs up to MaxA residues with OXT anywhere, nucleotide  *)
 (* runs up to 3, hetero tails), two-chain inputs from a smaller set, cyclic flag, both neutral options.        *)
 EXTENDS Termini
-CONSTANT MaxA
+CONSTANTS MaxA,   \* longest amino run of the single-chain cases
+          MaxS    \* longest run in each chain of the two-chain cases
 Seqs(S, L) == UNION {[1..n -> S] : n \in 1..L}
 Tails == {<<>>, <<"W">>, <<"L">>, <<"C">>, <<"W", "W">>}
 Ix(a, b) == [i \in 1..(b - a + 1) |-> a + i - 1]
@@ -13,7 +14,7 @@ BadNuc == {[kind |-> p \o <<"C">>, chains |-> <<Ix(1, Len(p) + 1)>>, cyc |-> {},
 Single == {[kind |-> p \o t, chains |-> <<Ix(1, Len(p \o t))>>, cyc |-> IF cy /\ Len(p) >= 2 /\ (\A i \in 1..Len(p) : p[i] = "A") THEN {<<1, Len(p)>>} ELSE {}, nn |-> nn, nc |-> nc] :
              p \in Seqs({"A", "AO"}, MaxA) \cup Seqs({"N", "N3"}, 3), t \in Tails,
              cy \in BOOLEAN, nn \in BOOLEAN, nc \in BOOLEAN} \ {x \in BadNuc : TRUE}
-Small == {p \o t : p \in Seqs({"A", "AO"}, 2) \cup Seqs({"N", "N3"}, 2), t \in {<<>>, <<"W">>}}
+Small == {p \o t : p \in Seqs({"A", "AO"}, MaxS) \cup Seqs({"N", "N3"}, 2), t \in {<<>>, <<"W">>}}
 Double == {[kind |-> a \o b, chains |-> <<Ix(1, Len(a)), Ix(Len(a) + 1, Len(a) + Len(b))>>, cyc |-> {}, nn |-> nn, nc |-> nc] :
              a \in Small, b \in Small, nn \in BOOLEAN, nc \in BOOLEAN}
 AllCases == Single \cup Double
